@@ -162,7 +162,7 @@ package keeper
 // Tried and NOT kept in this block (each makes one or two other obligations time out; the solvers are on a knife edge here, see
 // NOTES.md section d): processing_values (Processing[PID].Output[0].Values[j] == uint64(value of output j)), receipts
 // (Receipt == {dsha256(TX), j, uint64(value j)}), fields_kept, value_nonneg / value_range_if_sane_request (finding W1).
-// The full attempt is kept in /var/tmp/ag_wd/wd_full_attempt.go.
+// (The full attempt with those clauses is described in /verif/notes_ag_wd.md.)
 
 // ---- C05 / C01 / C02: fee bump of a processing batch ----------------------------------------------------------------------
 // P = the Processing record of req.Pid in the entry state; TX = req.NewNoWitnessTx.
